@@ -39,6 +39,23 @@ def is_kira(inst):
     return inst['krate'] == 'kira'
 
 
+_BASE = [None]
+
+
+def baseline_fns():
+    if _BASE[0] is None:
+        import json, os
+        p = os.path.join(os.path.dirname(os.path.dirname(os.path.abspath(__file__))), 'tables', 'names_baseline.json')
+        _BASE[0] = set(json.load(open(p))['fns']) if os.path.exists(p) else set()
+    return _BASE[0]
+
+
+def strip_closures(path):
+    """Obligations inside a closure are attributed to the function that contains it (closure numbering is not stable)."""
+    i = path.find('::{closure')
+    return path[:i] if i >= 0 else path
+
+
 def classify_leaf(inst):
     """-> (effect or None, note).  effect in alloc/free/panic/block/leaf/None(benign)"""
     p = inst['path']
@@ -272,6 +289,7 @@ class RtAnalysis:
         obs = {}
 
         def add(effect, kfn, boundary, sink, where, chain, inst_idx):
+            boundary = norm_boundary(boundary)
             key = '%s|%s|%s' % (effect, kfn, boundary)
             o = obs.get(key)
             if o is None:
@@ -282,18 +300,37 @@ class RtAnalysis:
             if o['chain'] is None:
                 o['chain'] = chain
 
+        base = baseline_fns()
+
+        def owner_of(k):
+            """The function an obligation of instance k is reported under: the enclosing function of a closure; for a
+            function that did not exist on the pinned tree (an extracted helper), its nearest caller that did."""
+            cur = k
+            for _ in range(12):
+                p = strip_closures(F.instances[cur]['path'])
+                if not base or p in base or F.instances[cur]['krate'] != 'kira':
+                    return p
+                par = self.parent.get(cur)
+                if not par:
+                    return p
+                cur = par[0]
+                # skip non-kira frames between the helper and its kira caller
+                while F.instances[cur]['krate'] != 'kira' and self.parent.get(cur):
+                    cur = self.parent[cur][0]
+            return strip_closures(F.instances[k]['path'])
+
         for k in sorted(self.kira):
             inst = F.instances[k]
             body = F.body_of_instance(k)
             if body is None:
                 continue
-            kfn = inst['path']
+            kfn = owner_of(k)
             root_chain = F.chain(self.parent, k)
             # own asserts
             idead = set(inst.get('dead') or ())
             for bi, blk in enumerate(body.blocks):
-                if blk['cleanup'] or bi in idead:
-                    continue
+                if blk['cleanup'] or bi in idead or blk.get('inl'):
+                    continue  # (spliced-in helper blocks are analysed with the helper's own instance)
                 t = blk['term']
                 if t['k'] == 'assert':
                     if auto_assert(body, t):
@@ -339,8 +376,26 @@ class RtAnalysis:
     # ------------------------------------------------------------ loops
     def loops(self):
         """Every natural loop in a body of an RT instance (deduplicated per body).
-        -> list of {fn, krate, header, where, klass, detail}"""
+        -> list of {fn (owner), krate, sig, key, where, klass, detail}.  A loop is identified by the function that owns it
+        (closures and extracted helpers are attributed to their owner) and by the signature of its exit tests, not by its
+        position in the function."""
+        import re
         F = self.F
+        base = baseline_fns()
+
+        def owner_of(k):
+            cur = k
+            for _ in range(12):
+                p = strip_closures(F.instances[cur]['path'])
+                if not base or p in base or F.instances[cur]['krate'] != 'kira':
+                    return p
+                par = self.parent.get(cur)
+                if not par:
+                    return p
+                cur = par[0]
+                while F.instances[cur]['krate'] != 'kira' and self.parent.get(cur):
+                    cur = self.parent[cur][0]
+            return strip_closures(F.instances[k]['path'])
         seen_bodies = {}
         for i in sorted(self.rt):
             b = F.body_of_instance(i)
@@ -348,14 +403,22 @@ class RtAnalysis:
                 continue
             seen_bodies[b.idx] = i
         out = []
+        counts = {}
         for bidx, i in sorted(seen_bodies.items()):
-            b = F.bodies[bidx]
-            ls = b.loops()
-            for n, l in enumerate(ls):
+            b = F.all_bodies[bidx]
+            owner = owner_of(i)
+            for n, l in enumerate(b.loops()):
+                if b.blocks[l['header']].get('inl'):
+                    continue  # loop of a spliced-in helper: reported with the helper's own instance
                 klass, detail = classify_loop(b, l)
-                out.append({'fn': b.path, 'krate': b.krate, 'ordinal': n, 'header': l['header'],
+                sig = ';'.join(sorted(set(re.sub(r'@bb\d+', '', d.strip()) for d in detail.split(';'))))
+                sig = re.sub(r'_\d+', '_', sig)[:160]
+                c = counts.get((owner, sig), 0)
+                counts[(owner, sig)] = c + 1
+                key = '%s|%s' % (owner, sig) + ('#%d' % c if c else '')
+                out.append({'fn': owner, 'krate': b.krate, 'sig': sig, 'key': key, 'header': l['header'],
                             'where': b.where(l['header']), 'klass': klass, 'detail': detail,
-                            'chain': F.chain(self.parent, i), 'shim': b.j.get('shim')})
+                            'chain': F.chain(self.parent, i), 'shim': b.j.get('shim'), 'iname': F.instances[i]['name']})
         return out
 
 
@@ -374,6 +437,26 @@ WRAPPERS = (
     'core::array::<impl std::ops::Index<I> for [T; N]>::index',
     'core::array::<impl std::ops::IndexMut<I> for [T; N]>::index_mut',
 )
+
+
+INDEX_RE = None
+
+
+def norm_boundary(b):
+    """All forms of slice/Vec/array indexing are one obligation class ('index'): `v[i]` on a Vec is a call of
+    Index::index, on a slice it is a BoundsCheck assert, and which one a site is changes with the receiver's type."""
+    import re
+    global INDEX_RE
+    if INDEX_RE is None:
+        INDEX_RE = re.compile(r"^(<std::vec::Vec<T, A> as std::ops::Index(Mut)?<I>>::index(_mut)?"
+                              r"|core::slice::index::<impl std::ops::Index(Mut)?<I> for \[T\]>::index(_mut)?"
+                              r"|core::array::<impl std::ops::Index(Mut)?<I> for \[T; N\]>::index(_mut)?"
+                              r"|assert:BoundsCheck)$")
+    if INDEX_RE.match(b):
+        return 'index'
+    if b.startswith('<atomic_arena::Arena<T> as std::ops::Index'):
+        return 'arena-index'
+    return b
 
 
 def via(F, ch, upto=None):
